@@ -88,6 +88,7 @@ def do_import(src, sid, expect, preserving=False):
         "id": sid,
         "kind": "preserving" if preserving else "breaking",
         "argument": meta.get("argument") if preserving else None,
+        "behaviour_changed": meta.get("behaviour_changed") if preserving else None,
         "property": meta.get("property"),
         "summary": meta.get("summary"),
         "needs_to_manifest": meta.get("needs_to_manifest"),
@@ -105,7 +106,9 @@ def do_import(src, sid, expect, preserving=False):
 def run_one(sid, checks, tier):
     d = os.path.join(SEEDED, sid)
     meta = json.load(open(os.path.join(d, "meta.json")))
-    cs = checks or (ALL_CHECKS if meta.get("kind") == "preserving" else None) or meta.get("expect") or [meta.get("property")]
+    # preserving changes: all 20 checks for pure refactors; a behaviour-changing one (round 6) promises only
+    # that ITS property still holds, so only the checks listed in its "expect" are run against it
+    cs = checks or ((meta.get("expect") or ALL_CHECKS) if meta.get("kind") == "preserving" else None) or meta.get("expect") or [meta.get("property")]
     wt = worktree()
     res = {}
     try:
